@@ -156,7 +156,7 @@ def oracle(c):
     ca = ev1.make_ca(c)
     snap = (ca.tobytes(), ca.dtype, ca.shape)
     memo = ev1.memo_value(c["memo"])
-    rule = Rule(c["rule"], c.get("scale", 1))
+    rule = Rule(c["rule"], c.get("scale", 1), clobber=bool(c.get("clobber")))
     first = cpl.evolve(ca, timesteps=T1, apply_rule=rule, r=c["r"], memoize=memo)
     if (ca.tobytes(), ca.dtype, ca.shape) != snap:
         return "the caller's array was modified by evolve"
@@ -171,13 +171,13 @@ def oracle(c):
     second = cpl.evolve(first, timesteps=T2, apply_rule=rule, r=c["r"], memoize=memo)
     if first.tobytes() != snap1:
         return "the caller's array was modified by the continued evolve"
-    once = cpl.evolve(ev1.make_ca(c), timesteps=T1 + T2 - 1, apply_rule=Rule(c["rule"], c.get("scale", 1)), r=c["r"], memoize=memo)
+    once = cpl.evolve(ev1.make_ca(c), timesteps=T1 + T2 - 1, apply_rule=Rule(c["rule"], c.get("scale", 1), clobber=bool(c.get("clobber"))), r=c["r"], memoize=memo)
     if second.shape != once.shape or second.dtype != once.dtype or second.tobytes() != once.tobytes():
         return "evolving %d then %d steps differs from %d steps at once" % (T1, T2, T1 + T2 - 1)
     # only the last row of the history matters
     if H > 1:
         c2 = dict(c, hist=[c["hist"][-1]])
-        alone = cpl.evolve(ev1.make_ca(c2), timesteps=T1, apply_rule=Rule(c["rule"], c.get("scale", 1)), r=c["r"], memoize=memo)
+        alone = cpl.evolve(ev1.make_ca(c2), timesteps=T1, apply_rule=Rule(c["rule"], c.get("scale", 1), clobber=bool(c.get("clobber"))), r=c["r"], memoize=memo)
         if alone[1:].tobytes() != first[H:].tobytes():
             return "new rows depend on more than the last row of the history"
     return None
